@@ -148,8 +148,9 @@ def method_call(ex, recv, name, args, kw, st, node):
                 raise Unsupported('str method %s at line %s' % (name, node.lineno))
             # unknown method on something that may be a str: AttributeError only if str lacks it
             if hasattr('', name):
-                raise Unsupported('str method %s at line %s' % (name, node.lineno))
-            out.append((s_case.raise_('AttributeError', node.lineno), None))
+                ex.unsupported_if_feasible(s_case, 'str method %s at line %s' % (name, node.lineno))
+            else:
+                out.append((s_case.raise_('AttributeError', node.lineno), None))
         else:
             out.extend(h(ex, Acc('sv', recv), args, kw, s_case, node))
     rest = st.assume(Not(Is('VStr', recv)))
